@@ -248,11 +248,49 @@ def jobs(tier, seed):
         js.append({"kind": "tiny", "index": i})
     for i in range(len(CHUNK_BODIES)):
         js.append({"kind": "chunk_exh", "index": i, "max_n": 16 if tier == "quick" else 21})
+    for sh in range(4):
+        js.append({"kind": "threshold", "shard": sh, "nshards": 4})
     n = 700 if tier == "quick" else 30000
     for sh in range(16):
         js.append({"kind": "hyp", "n": n, "seed": derive_seed(seed, "c02", sh)})
     js += fuzz_jobs(tier, seed, "c02")
     return js
+
+
+ROUND_LENGTHS = [255, 256, 257, 1023, 1024, 1025, 2048, 4095, 4096, 4097, 8191, 8192, 8193, 16384, 65535, 65536, 65537]
+
+
+def threshold_cases():
+    """control lines / tokens whose length sits at a secondary (power-of-two) threshold, cut around their end and in the middle; bodies
+    beyond the 8 KiB string stage of the input buffer with an overflow threshold below one read, cut shortly behind the header block"""
+    for L in ROUND_LENGTHS:
+        variants = [
+            (CHUNK_HEAD, "3;x=" + "e" * (L - 4), "\r\nabc\r\n0\r\n\r\n" + G.FOLLOWER),                                  # chunk-size line of exactly L bytes
+            (CHUNK_HEAD + "3\r\nabc\r\n", "0;x=" + "e" * (L - 4), "\r\n\r\n" + G.FOLLOWER),                             # last-chunk line
+            (CHUNK_HEAD + "3\r\nabc\r\n0\r\n", "X-T: " + "t" * (L - 5), "\r\n\r\n" + G.FOLLOWER),                     # trailer line
+            ("GET /h HTTP/1.1\r\n", "X-H: " + "h" * (L - 5), "\r\n\r\n" + G.FOLLOWER),                                   # header line
+            ("", "GET /" + "u" * (L - 14) + " HTTP/1.1", "\r\n\r\n" + G.FOLLOWER),                                        # request line
+        ]
+        for pre, line, post in variants:
+            if len(line) != L:
+                continue
+            s_ = pre + line + post
+            a, b = len(pre), len(pre) + L
+            adj = {"max_request_header_size": 300000} if L > 60000 else {}
+            yield {"stream": s_, "cuts": [], "adj": adj}
+            for d in (-2, -1, 0, 1, 2, 3):
+                yield {"stream": s_, "cuts": [b + d], "adj": adj}
+                yield {"stream": s_, "cuts": [a + L // 2, b + d], "adj": adj}
+            yield {"stream": s_, "cuts": [a + L // 2], "adj": adj}
+    for n in (8200, 12000, 20000):
+        body = ("0123456789abcdef" * (n // 16 + 1))[:n]
+        for stream_, hlen in (("POST /b HTTP/1.1\r\nContent-Length: %d\r\n\r\n" % n + body + G.FOLLOWER, None),
+                              (CHUNK_HEAD + "%x\r\n" % n + body + "\r\n0\r\n\r\n" + G.FOLLOWER, None)):
+            he = stream_.index("\r\n\r\n") + 4
+            for ov in (100, 4096, 8192, 9000):
+                yield {"stream": stream_, "cuts": [], "adj": {"inbuf_overflow": ov}}
+                for d in (0, 1, 10, 100, 1000, 4095, 4096, 8191):
+                    yield {"stream": stream_, "cuts": [he + d], "adj": {"inbuf_overflow": ov}}
 
 
 def case_strategy():
@@ -296,6 +334,10 @@ def run_job(job, col):
             for a, b in itertools.combinations(io, 2):
                 one({"stream": s, "cuts": [a, b], "adj": adj})
             col.exhaustive("all single cuts of every fixed corpus stream; all pairs of CR/LF-adjacent cuts")
+    elif job["kind"] == "threshold":
+        for i, c in enumerate(threshold_cases()):
+            if i % job["nshards"] == job["shard"]:
+                one(c)
     elif job["kind"] == "tiny":
         s = TINY[job["index"]]
         n = len(s)
